@@ -1,4 +1,4 @@
-import JobShopModel.World
+import JobShopModel.Staged
 /-!
 # Line-protocol driver for the executable model
 
@@ -157,7 +157,7 @@ def step (w : World) (line : String) : World × String :=
       let mm : Option (Option Int) := if m == "none" then some none else m.toInt?.map some
       (match mm with
        | some mo =>
-         (match w.dispatch j p mo with
+         (match w.dispatchStaged j p mo with
           | (w', .ok) =>
             let st := match (w'.s.sched.flatten.find? fun x => x.job == j && x.pos == p) with
               | some x => x.start | none => -1
@@ -172,6 +172,18 @@ def step (w : World) (line : String) : World × String :=
         | (w', some id) => (w', toString id)
         | (w', none) => (w', "raise"))
     | none => (w, "bad-op")
+  | ["obs", k, t] =>
+    match parseKind k, t.toNat? with
+    | some kind, some tag => (match w.construct kind tag with
+        | (w', some id) => (w', toString id)
+        | (w', none) => (w', "raise"))
+    | _, _ => (w, "bad-op")
+  | ["cogc", k, t] =>
+    match parseKind k, t.toNat? with
+    | some kind, some tag => (match w.createOrGetCond kind tag with
+        | (w', some id) => (w', toString id)
+        | (w', none) => (w', "raise"))
+    | _, _ => (w, "bad-op")
   | ["cog", k] =>
     match parseKind k with
     | some kind => (match w.createOrGet kind with
@@ -186,6 +198,7 @@ def step (w : World) (line : String) : World × String :=
     match id.toNat? with
     | some id => (match w.resubscribe id with | (w', true) => (w', "ok") | (w', false) => (w', "raise"))
     | none => (w, "bad-op")
+  | "mark" :: _ => (w, "ok")
   | ["wsnap"] => (w, worldSnapshot w)
   | ["trace"] => (w, lst (fmtTrace w))
   | ["snap"] => (w, snapshot w)
